@@ -137,10 +137,15 @@ pub fn run_unit(job: &Job, prefs: &[String]) -> UnitResult {
             for p in prefs {
                 let j = job.clone();
                 let p2 = p.clone();
-                let r = with_timeout(3000, move || run_one(&j, &p2));
+                let mut r = with_timeout(3000, move || run_one(&j, &p2));
+                if r.is_none() {
+                    // a real hang never finishes; a slow document under machine load does: ask again, patiently
+                    let (j, p2) = (job.clone(), p.clone());
+                    r = with_timeout(30000, move || run_one(&j, &p2));
+                }
                 match r {
                     None => {
-                        fails.push(("hang".into(), format!("{} did not finish within 3 s on a {}-char text", job.name(), p.chars().count()), job.to_json(p)));
+                        fails.push(("hang".into(), format!("{} did not finish within 30 s on a {}-char text", job.name(), p.chars().count()), job.to_json(p)));
                         break; // the stuck thread keeps a core busy; one witness is enough
                     }
                     Some(Ok(Err(m))) => fails.push((classify(&m), format!("{} panicked: {}", job.name(), m), job.to_json(p))),
@@ -210,7 +215,7 @@ pub fn run(ctx: &Ctx) {
     let corpus = [
         "the how", "better then ", "It is better then ", "/** {@link */", "/** See {@link Foo", ">", "> ", "\\begin{code}\n>",
         "First. one two three four five six seven eight nine ten eleven twelve thirteen fourteen fifteen sixteen seventeen eighteen nineteen twenty twenty-one two three four five six seven eight nine thirty one two three four five six seven eight nine forty one two\n",
-        "#let", "#let x", "#set text(lang:", "#f(a\nb $x$ c", "You could of \ncourse do it.", "He should of\n course.", "See e.g.", "e.g.", "1e999$", "0x", "[a-", "a@", "http://", "x:", "\"", "'", "’s",
+        "#let", "#let x", "#set text(lang:", "#f(a\nb $x$ c", "[[||]]", "See [[|alias|extra]]", "\\[[target|alias|extra]]", "[[a|[b](x)|c]]", "You could of \ncourse do it.", "He should of\n course.", "See e.g.", "e.g.", "1e999$", "0x", "[a-", "a@", "http://", "x:", "\"", "'", "’s",
     ];
     for id in &ids {
         for (k, c) in corpus.iter().enumerate() {
